@@ -5,6 +5,7 @@ import CifModel.Model.Ladder
     ladder dup <n> <k>                      dup_ustrings on n strings, k-th allocation fails (0 = none)
     ladder clone <shape…> <k>               cif_value_clone of a value of the given shape into a fresh target
     ladder insert <full 0|1> <shape…> <k>   cif_value_insert_element_at, array full or not
+    ladder set <shape…> <k>                 cif_value_set_element_at: clone into the existing element object
   shape tokens: S (unknown/na) | C (char) | M0 | M1 (number without / with su) | [ shape* ]
   answer: `ld rc=<code> allocs=<n> fails=<ids> frees=<sorted ids> live=<sorted ids>` — order-insensitive on purpose:
   the order in which a clean-up ladder releases blocks is not constrained by any property.
@@ -71,6 +72,14 @@ def handle : Handler
       | [k] => do
           let k ← k.toNat?
           let (rc, _, st) := insertElement k full sh
+          pure (summary rc st.evs)
+      | _ => none
+  | "set" :: rest => do
+      let (sh, r) ← parseShape (rest.length + 1) rest
+      match r with
+      | [k] => do
+          let k ← k.toNat?
+          let (rc, _, st) := setElement k sh
           pure (summary rc st.evs)
       | _ => none
   | _ => none
